@@ -221,6 +221,7 @@ class Check:
         self.assumptions = []
         self.notes = {}
         self._viol_keys = set()
+        shutil.rmtree(os.path.join(VERIF, "replays", prop), ignore_errors=True)
 
     # -- coverage
     def add_tlc(self, res):
@@ -266,7 +267,7 @@ class Check:
         d = os.path.join(VERIF, "replays", self.prop)
         os.makedirs(d, exist_ok=True)
         safe = re.sub(r"[^A-Za-z0-9_.-]", "_", name)[:80]
-        path = os.path.join(d, safe + ".json")
+        path = os.path.join(d, safe + "-" + stable_hash(name)[:6] + ".json")
         replay_obj = dict(replay_obj)
         replay_obj["property"] = self.prop
         replay_obj["summary"] = summary
